@@ -79,6 +79,8 @@ type e2Machine struct {
 	nforeign int
 	ntxfail  int
 	patched  []patchDone // REST patches answered with success (schedule scenarios)
+	// REST patches that were answered with an error in a run with injected faults (their caller retries later)
+	failedPatches []pt.Action
 	// REST patches of a document that already had a log which were answered with an error
 	patchRefused []string
 	dead         map[int]bool // clients whose collection was reset (they would have to reconnect)
@@ -505,13 +507,25 @@ func (m *e2Machine) Apply(a pt.Action) (v *pt.Violation) {
 		}
 		m.drain()
 		m.last = fmt.Sprintf("patch err=%v", err != nil)
+		if err != nil && m.p.Tolerant {
+			// a run with injected faults: the endpoint may fail, but then it must say so (checked below when it does not);
+			// the REST caller will try again later
+			m.failedPatches = append(m.failedPatches, a)
+			return nil
+		}
 		if err != nil {
 			return viol("C19:rest-patch-refused", "PatchDocument(%s, %s) returned %v", a.T, a.V, err)
+		}
+		if m.sys.DB.Dead() || m.sys.Svc() == nil {
+			return nil // answered, then the server died: what it stored is checked after the restart (closure)
 		}
 		if canonJSON(resp.Json) != canonJSON(a.V) {
 			return viol("C19:rest-response-differs", "PatchDocument(%s, %s) answered %s", a.T, a.V, resp.Json)
 		}
 		sv, serr := m.serverView(c.coll, a.T)
+		if serr != nil && m.p.Tolerant {
+			return nil // the harness's own look at the store ran into the injected fault
+		}
 		if serr != nil {
 			return viol("C19:rest-patched-document-not-rebuildable", "%v", serr)
 		}
